@@ -67,7 +67,52 @@ func (x *Exec) execFor(s *ast.ForStmt, st *State) flow {
 		}
 		st = f.normal
 	}
+	if invs, _ := x.loopInvs(s); len(invs) == 0 && s.Cond != nil {
+		if out, ok := x.tryUnroll(s, st); ok {
+			return out
+		}
+	}
 	return x.cutLoop(s, st, s.Cond, s.Post, s.Body, nil, nil)
+}
+
+// tryUnroll unrolls a for loop whose condition folds to a literal under the current state
+// (reflection loops over a struct's fields, DESIGN.md 3.5). At most 64 iterations.
+func (x *Exec) tryUnroll(s *ast.ForStmt, st *State) (flow, bool) {
+	probe := st.clone()
+	nObl := len(x.obls)
+	c := x.eval(s.Cond, probe)
+	x.obls = x.obls[:nObl]
+	if c.S != "true" && c.S != "false" {
+		return flow{}, false
+	}
+	cur := st
+	var exits []*State
+	for iter := 0; iter < 64; iter++ {
+		if cur == nil {
+			break
+		}
+		c := x.eval(s.Cond, cur)
+		if c.S == "false" {
+			exits = append(exits, cur)
+			cur = nil
+			break
+		}
+		if c.S != "true" {
+			panic(unsupported("loop condition stopped being concrete while unrolling"))
+		}
+		pre := cur.clone()
+		f := x.execBlock(s.Body.List, cur)
+		exits = append(exits, f.brk...)
+		cur = x.join(pre, append([]*State{f.normal}, f.cont...))
+		if cur != nil && s.Post != nil {
+			pf := x.execStmt(s.Post, cur)
+			cur = pf.normal
+		}
+	}
+	if cur != nil {
+		panic(unsupported("loop not finished after 64 unrolled iterations"))
+	}
+	return flow{normal: x.join(st, exits)}, true
 }
 
 // rangeSpec describes a range loop for cutLoop.
@@ -283,7 +328,7 @@ func (x *Exec) cutLoop(node ast.Stmt, st *State, cond ast.Expr, post ast.Stmt, b
 		keyTerm = x.ctx.Fresh("rk", ks)
 		lc.key = &keyTerm
 		has := sel(x.heapGet(bodySt, mh.has, arraySort(SInt, arraySort(ks, SBool))), rs.val)
-		c = and(sel(has, keyTerm), not(sel(visVar, keyTerm)))
+		c = and(not(eq(rs.val, intLit(0))), sel(has, keyTerm), not(sel(visVar, keyTerm)))
 	}
 	exitSt := bodySt.clone()
 	if rs != nil && rs.kind == "map" {
@@ -292,7 +337,7 @@ func (x *Exec) cutLoop(node ast.Stmt, st *State, cond ast.Expr, post ast.Stmt, b
 		ks, vsrt := mh.ks, mh.vs
 		_, _ = ks, vsrt
 		has := sel(x.heapGet(exitSt, mh.has, arraySort(SInt, arraySort(ks, SBool))), rs.val)
-		exitSt.assume(Term{fmt.Sprintf("(forall ((k %s)) (=> (select %s k) (select %s k)))", ks, has.S, visVar.S), SBool})
+		exitSt.assume(Term{fmt.Sprintf("(forall ((k %s)) (=> (and (not (= %s 0)) (select %s k)) (select %s k)))", ks, rs.val.S, has.S, visVar.S), SBool})
 	} else {
 		exitSt.assume(not(c))
 	}
